@@ -220,10 +220,9 @@ Theorems (`Properties/C07.lean`): unedited — `c07_write_redundant_partial` (ta
 hypothesis `keepsTail`, some declared section end reaches the end of the file, is evaluated here;
 cases outside it are tagged `corr`: correspondence only, `c07_write_redundant_bytes` still says the
 written file differs by trailing zeros only); with an edit history — `c07_edit_redundant_partial`
-(the file header's LOD count kept).  A history on a file whose file-header LOD count is smaller than
-the real one or larger than 3 is the class of the recorded finding `c07.file-lod-count`
-(`c07_edit_redundant_lodcount_witness`): the specification's answer stays the view of the edited
-model, the model of the code (4th field) reports what the code does. -/
+(every `ρ`; tag `thm`).  Since fix C07-06 `update_headers` does not look at the stored file-header LOD
+count either; the specification's answer is the view of the edited model as for every other case,
+the model of the code is the 4th field. -/
 
 def setArr3 (a : Arr3 UInt32) (i : Nat) (f : UInt32 → UInt32) : Arr3 UInt32 :=
   match i with
@@ -301,12 +300,9 @@ def handle (line : String) : String :=
           -- `update_headers`: the header-consistency flags, which look at all three slots, are then
           -- not the specification's business — model against code only
           let unused := rs.any fun (f, l, _) => f != "fss" && f != "frs" && f != "flc" && l ≥ a.lodCount.toNat
-          -- the stored file-header LOD count: kept ⇒ `c07_edit_redundant_partial`; below the real
-          -- count or above 3 ⇒ class of the recorded finding `c07.file-lod-count`
-          let flc := (rs.foldl redunFH (fileHeader a)).lodCount
-          let lcTags : List String :=
-            if flc == a.lodCount then ["thm"]
-            else if flc < a.lodCount || flc > 3 then ["corr", "kf:c07.file-lod-count"] else ["corr"]
+          -- `c07_edit_redundant_partial` (every ρ, the stored file-header LOD count included: since
+          -- fix C07-06 no edit reads it, it is echoed into the written file)
+          let lcTags : List String := ["thm"]
           match applyEdits a es with
           | some a' =>
             match inQuantifier a && inQuantifier a' && !unused, view a' with
